@@ -75,6 +75,7 @@ def make_scenario(spec):
                          spec.get("split", False),
                          [tuple(op) for op in spec.get("followups", ())])
     sc.faults = {k: tuple(v) for k, v in (spec.get("faults") or {}).items()}
+    sc.observe_after_followups = bool(spec.get("after"))
     return sc
 
 
